@@ -53,6 +53,7 @@ pub fn exec_gen(toks: &[&str]) -> String {
         format!("{} {}", INFLIGHT.load(O::SeqCst), fin)
     });
     uninstall();
+    close_leaked(&path);
     r.unwrap_or_else(|_| "panic".into())
 }
 
